@@ -142,9 +142,38 @@ impl Sink {
 
 /// Runs one work item; an assertion of the harness failing inside it (the real code returned something the
 /// harness did not expect) is reported as a violation instead of aborting the whole run.
+/// Work items in progress, per thread: (start, label, description).  A monitor thread reports an item that does
+/// not finish (code under test that loops forever inside a call no check expected to hang) and ends the run.
+static IN_PROGRESS: Mutex<Vec<(std::thread::ThreadId, std::time::Instant, String, String)>> = Mutex::new(Vec::new());
+
+fn start_stall_monitor(limit: std::time::Duration, replay_dir: String) {
+	std::thread::spawn(move || loop {
+		std::thread::sleep(std::time::Duration::from_millis(500));
+		let stuck = IN_PROGRESS.lock().unwrap().iter().find(|e| e.1.elapsed() > limit).map(|e| (e.2.clone(), e.3.clone()));
+		if let Some((label, what)) = stuck {
+			std::fs::create_dir_all(&replay_dir).ok();
+			let path = format!("{}/replay-work_item_hang-{}.json", replay_dir, std::process::id());
+			std::fs::write(&path, serde_json::to_vec(&json!({"label": label, "item": what})).unwrap()).ok();
+			let line = json!({"t": "viol", "check": "work_item_hang", "class": label, "kind": "hang",
+				"detail": format!("a work item did not finish within {:?}: {}", limit, &what[..what.len().min(400)]), "replay": path});
+			println!("{}", line);
+			println!("{}", json!({"t": "summary", "evaluations": 0, "distinct": 0, "distinct_nontrivial": 0, "violations": 1, "samples": [], "extra": {"aborted": "a work item hung"}}));
+			std::process::exit(0);
+		}
+	});
+}
+
 pub fn item_guard(label: &str, f: impl FnOnce()) {
+	item_guard_desc(label, "", f)
+}
+
+pub fn item_guard_desc(label: &str, what: &str, f: impl FnOnce()) {
 	util::install_panic_hook();
-	if let util::Outcome::Panic(p) = util::guard_plain(f) {
+	let me = std::thread::current().id();
+	IN_PROGRESS.lock().unwrap().push((me, std::time::Instant::now(), label.to_string(), what.to_string()));
+	let res = util::guard_plain(f);
+	IN_PROGRESS.lock().unwrap().retain(|e| e.0 != me);
+	if let util::Outcome::Panic(p) = res {
 		let line = json!({"t": "viol", "check": "harness_assert", "class": label, "kind": "mismatch",
 			"detail": format!("an expectation of the harness about the code's result failed: {}", p), "replay": ""});
 		println!("{}", line);
@@ -234,7 +263,7 @@ where
 					continue;
 				}
 				if let Some((_, v)) = parse_tlc_line(&line) {
-					item_guard(tag, || f(idx, v));
+					item_guard_desc(tag, line.get(..2000).unwrap_or(&line), || f(idx, v));
 				}
 			});
 		}
@@ -384,7 +413,68 @@ fn cmd_scale(a: &Args) {
 		("C", [3, 12, 0], vec!["none", "single", "none", "single"], 2, 1, 300),
 		("B", [2, 2, 0], vec!["none", "none", "none", "single"], big, 0, 0),
 	];
-	let only = a.get("shape").map(|s| s.parse::<usize>().unwrap());
+	// deep rollbacks (a netplay rollback re-simulates up to 7 frames; nothing in the format limits it), gaps, and an id
+	// revisited after a gap -- small enough for the per-event checks (from 2.2 on: before that frame ids are
+	// consecutive, there are no rollbacks)
+	let mut r = util::Rng::new(seed ^ 0x2011);
+	let mut rb: Vec<(&str, [u8; 3], Vec<&str>, Vec<i64>, usize)> = vec![];
+	for (k, (reg, ver, occ)) in [("C", [3u8, 16u8, 0u8], vec!["single", "ic", "none", "none"]), ("B", [2, 2, 0], vec!["single", "none", "none", "single"]), ("B", [2, 9, 0], vec!["ic", "single", "none", "none"]), ("C", [3, 0, 0], vec!["none", "single", "single", "none"])]
+		.into_iter()
+		.enumerate()
+	{
+		let mut ids: Vec<i64> = (-123..-100).collect();
+		// back by 8, 15 and 23 frames, re-simulating forward each time; then a gap; then back before the gap
+		for depth in [8i64, 15, 23] {
+			let top = *ids.last().unwrap();
+			ids.extend((top - depth + 1)..=(top + 2));
+		}
+		let top = *ids.last().unwrap();
+		ids.extend([top + 40, top + 41, top + 1, top + 2, top + 41, top + 42]);
+		for _ in 0..k {
+			let top = *ids.last().unwrap();
+			ids.push(top - 1 - r.below(30) as i64);
+		}
+		rb.push((reg, ver, occ, ids, if reg == "C" { 1 + k % 2 } else { 0 }));
+	}
+	for (i, (reg, ver, occ, ids, ni)) in rb.iter().enumerate() {
+		if a.get("only") == Some("big") {
+			break;
+		}
+		let beh = fields::simple_beh_ids(reg, occ, ids, *ni, 0);
+		let mut o = GenOpts::new(seed ^ (0xDEE9 + i as u64), *ver);
+		o.plan = 1;
+		let built = gen::build_beh(&db, &beh, &o);
+		sink.count(fnv(&built.bytes), true);
+		sink.sample(|| json!({"regime": reg, "occ": occ, "version": ver, "frame_ids": ids, "file_len": built.bytes.len()}));
+		let mut viols = vec![];
+		item_guard("scale", || {
+			let ctx = checks::Ctx::new(&db, &beh, &built);
+			for c in &checks {
+				match c.as_str() {
+					"c01" => ctx.c01_roundtrip(&mut viols),
+					"c04" => {
+						ctx.c04_oneshot(&mut viols);
+						ctx.incremental("c04", stream::Frag::Whole, &mut viols)
+					}
+					"rows" => {
+						ctx.rowview(&mut viols);
+						ctx.incremental("c13", stream::Frag::Whole, &mut viols)
+					}
+					"arrow" => ctx.arrow(&mut viols),
+					"slpp" => ctx.slpp_roundtrip(&[real::Comp::all()[i % 3]], i % 2 == 0, &mut viols),
+					"inc12" => {
+						ctx.incremental("c12", stream::Frag::Fixed(1 + i % 7), &mut viols);
+						ctx.incremental("c12", stream::Frag::RandomIntr(seed ^ i as u64), &mut viols)
+					}
+					other => panic!("unknown check {}", other),
+				}
+			}
+		});
+		for v in &viols {
+			sink.report(v, &|| checks::replay_record(&beh, &built, o.seed, o.plan));
+		}
+	}
+	let only: Option<usize> = if a.get("only") == Some("small") { Some(usize::MAX) } else { None };
 	for (i, (reg, ver, occ, nf, ni, ng)) in shapes.iter().enumerate() {
 		if only.map_or(false, |o| o != i) {
 			continue;
@@ -405,7 +495,7 @@ fn cmd_scale(a: &Args) {
 					"rows" => ctx.rowview(&mut viols),
 					"arrow" => ctx.arrow(&mut viols),
 					"slpp" => ctx.slpp_roundtrip(&[real::Comp::all()[i % 3]], i % 2 == 0, &mut viols),
-					"inc12" => ctx.incremental("c12", stream::Frag::Fixed(4096), &mut viols),
+					"inc12" => {} // (the per-event comparison is quadratic: only on the small deep-rollback shapes above)
 					other => panic!("unknown check {}", other),
 				}
 			}
@@ -456,6 +546,7 @@ fn main() {
 	let _ = log::set_logger(&EVAL_LOGGER);
 	set_logging(false);
 	LOGGER_STRIDE.store(a.num("logger-pass", 4) as usize, Ordering::SeqCst);
+	start_stall_monitor(std::time::Duration::from_secs(a.num("stall-secs", 300)), a.get("replay-dir").unwrap_or("work/replays").to_string());
 	match a.cmd.as_str() {
 		"replay-beh" => cmd_replay_beh(&a),
 		"fields" => fields::cmd_fields(&a),
